@@ -135,7 +135,7 @@ pub fn scenarios(tier: Tier) -> Vec<ScenarioDef> {
                 if n == 4 && tier == Tier::Quick && sc.len() > 2 { continue }
                 let spec = Spec { cont, n, prefill: *prefill, scripts: sc.clone() };
                 let threads = sc.len();
-                let bound = match tier { Tier::Quick => if threads <= 2 { 4 } else { 2 }, Tier::Thorough => if threads <= 2 { 5 } else if threads == 3 { 3 } else { 2 } };
+                let bound = match tier { Tier::Quick => if threads <= 2 { 3 } else { 2 }, Tier::Thorough => if threads <= 2 { 5 } else if threads == 3 { 3 } else { 2 } };
                 defs.push(ScenarioDef { prop: "C18", family: format!("{}/N{n}", cont.name()), rung: name.to_string(), rung_idx, max_bound: bound,
                     make: Arc::new(move || dispatch(spec.clone())) });
                 rung_idx += 1;
